@@ -14,6 +14,7 @@ pub fn prop() -> Prop {
                Non-trivial = pair with at least one uninitialized bit; distinct = (op, data, masks).",
         assumptions: &["hook Word::verif_init_mask/verif_from_parts (cfg endorpersand_lc3_ensemble_verif) exposes the private mask faithfully; cross-checked with a public-API construction"],
         run, guard,
+        stages: || vec![st("miri", "", 1_500, 4, 1800)],
         level_text: "Runtime oracle check over hundreds of thousands (quick) to tens of millions (thorough) of operand pairs with re-randomized uninitialized bits; exhaustive over the uninitialized bits when there are few.",
         level_note: "Sampled over the 2^64 (data, mask) pair space, steered to mask classes; relies on one additive hook.",
         technique: "metamorphic oracle (re-randomize don't-care bits) through a state hook",
